@@ -454,6 +454,14 @@ def runDynRF (c : Case) : List String :=
     | l => l
   let (_, lines) := c.words.foldl (fun (acc : DynRF Float32 × List String) op =>
     let (d, out) := acc
+    if op.startsWith "A" then
+      -- A<k>: k applications without output (long histories of the queue)
+      let kk := ((op.drop 1).toString.toNat?).getD 0
+      -- (= kk-fold `DynRF.apply`: the entries move from the front of `next` to the end of `past`, in order)
+      let kk := min kk d.next.length
+      let d' : DynRF Float32 := { next := d.next.drop kk, past := d.past ++ d.next.take kk }
+      (d', out ++ ["ops " ++ op])
+    else
     match op with
     | "a" =>
       match d.apply with
@@ -465,9 +473,10 @@ def runDynRF (c : Case) : List String :=
       (d', out ++ ["ops f", hexLine "vals" (p.flatMap fun x => [x.1, x.2])])
     | _ => (d, out)) ({ next := queue, past := [] }, [])
   -- final flush: the harness flushes once more at the end
-  let used := (c.words.toList.filter (· == "a")).length
+  let nOf := fun (op : String) => if op == "a" then 1 else if op.startsWith "A" then ((op.drop 1).toString.toNat?).getD 0 else 0
+  let used := (c.words.toList.map nOf).sum
   let flushedBefore : Nat := (c.words.toList.foldl (fun (st : Nat × Nat) op =>
-      if op == "a" then (st.1 + 1, st.2) else if op == "f" then (st.1, st.1) else st) (0, 0)).2
+      if op == "f" then (st.1, st.1) else (st.1 + nOf op, st.2)) (0, 0)).2
   let rest := (queue.take used).drop flushedBefore
   ["case " ++ c.id, "ints 0"] ++ lines ++ ["ops f", hexLine "vals" (rest.flatMap fun x => [x.1, x.2])]
 
@@ -509,12 +518,13 @@ def runRot (c : Case) : List String :=
   | some rfRows, some drRows =>
     let qArr := ((List.range n).map ax0.at).toArray
     let pArr := ((List.range n).map ax1.at).toArray
-    let cent (g : Array Float32) (k : Nat) : String :=
-      let (m0, mq, mp) := (List.range (n * n)).foldl (fun (acc : Float × Float × Float) i =>
-        let v := (g.getD i f32zero).toFloat
-        (acc.1 + v, acc.2.1 + v * (qArr.getD (i / n) f32zero).toFloat, acc.2.2 + v * (pArr.getD (i % n) f32zero).toFloat))
-        (0.0, 0.0, 0.0)
-      hexLine "vals" [Float32.ofNat k, (mq / m0).toFloat32, (mp / m0).toFloat32, m0.toFloat32]
+    let cent (g : Array Float32) (k : Nat) : List String :=
+      (List.range (max nb 1)).map fun b =>
+        let (m0, mq, mp) := (List.range (n * n)).foldl (fun (acc : Float × Float × Float) i =>
+          let v := (g.getD (b * n * n + i) f32zero).toFloat
+          (acc.1 + v, acc.2.1 + v * (qArr.getD (i / n) f32zero).toFloat, acc.2.2 + v * (pArr.getD (i % n) f32zero).toFloat))
+          (0.0, 0.0, 0.0)
+        hexLine "vals" [Float32.ofNat k, (mq / m0).toFloat32, (mp / m0).toFloat32, m0.toFloat32]
     let step (g : Array Float32) : Array Float32 :=
       let g2 := (applyY n nb 0 (fun r => rfRows.getD r []) (fun i => g.getD i f32zero)).toArray
       (applyX n nb (fun r => drRows.getD r []) (fun i => g2.getD i f32zero)).toArray
@@ -522,7 +532,7 @@ def runRot (c : Case) : List String :=
       let (g, out) := acc
       let g' := step g
       let k := k0 + 1
-      (g', if k % every == 0 || k == K then out ++ [cent g' k] else out)) (c.data, [cent c.data 0])
+      (g', if k % every == 0 || k == K then out ++ cent g' k else out)) (c.data, cent c.data 0)
     ["case " ++ c.id, hexLine "off" rfOff.toList, hexLine "off" drOff.toList] ++ lines ++ [hexLine "out" g.toList]
   | _, _ => ["case " ++ c.id, "undefined float-to-uint32"]
 
